@@ -8,6 +8,7 @@ ordinary use of line_profiler.profile; every observation is compared with the mo
 Coq (mismatch) and the property's clauses are evaluated on the implementation's own
 observations (spec_fail), both in Coq and in python."""
 import itertools
+import os
 import json
 import re
 import shutil
@@ -39,6 +40,10 @@ FINDINGS = {
     16: 'C19-interval-timer-leak',
     8: 'C19-autoprofile-leaves-profiler-enabled',      # repaired by a77d816
     108: 'C19-program-enable-left-on',                  # repaired by fcd15c8
+    204: 'C19-profile-kept-when-dump-fails',            # repaired by 5d3505e
+    304: 'C19-profile-kept-when-script-missing',        # known
+    208: 'C19-monitoring-id-kept-after-settrace-none',  # known
+    308: 'C19-cprofile-left-on-when-dump-fails',        # known
 }
 BITNAMES = {1: 'sys.argv', 2: 'sys.path', 4: 'profile decorator', 8: 'profiler left enabled', 16: 'helper thread'}
 
@@ -68,9 +73,9 @@ def prog_text(outcome, tp, ta, explicit, imp=0):
     return '\n'.join(lines) + '\n'
 
 
-SPECIALS = ['rebind_path', 'rebind_argv', 'rebind_both', 'threads', 'suspended_gen']
+SPECIALS = ['rebind_path', 'rebind_argv', 'rebind_both', 'threads', 'suspended_gen', 'settrace_none']
 # programs that drive the builtin `profile` object themselves (kernprof -l / -b put it there): left open, or balanced
-LEAVES = dict(leave_enable='LEnable', leave_bycount='LByCount', leave_with='LByCount', balanced_enable='LNone', balanced_with='LNone',
+LEAVES = dict(leave_bycount_untraced='LByCount', leave_untraced='LEnableUntraced', leave_enable='LEnable', leave_bycount='LByCount', leave_with='LByCount', balanced_enable='LNone', balanced_with='LNone',
               balanced_bycount='LNone')
 
 
@@ -89,12 +94,17 @@ def special_text(kind, outcome, explicit=0):
         lines += ["sys.argv.append('prog-added')", "sys.argv = sys.argv + ['prog-rebound']"]
     if kind in LEAVES:
         lines = ['import sys', 'def work(n):', '    return sum(range(n))']
-        lines += dict(leave_enable=['profile.enable()', 'work(5)'], leave_bycount=['profile.enable_by_count()', 'work(5)'],
+        lines += dict(leave_bycount_untraced=['profile.enable_by_count()', 'work(5)', 'sys.settrace(None)'],
+                      leave_untraced=['profile.enable()', 'work(5)', 'sys.settrace(None)'], leave_enable=['profile.enable()', 'work(5)'], leave_bycount=['profile.enable_by_count()', 'work(5)'],
                       leave_with=['profile.__enter__()', 'work(5)'], balanced_enable=['profile.enable()', 'work(5)', 'profile.disable()'],
                       balanced_with=['with profile:', '    work(5)'],
                       balanced_bycount=['profile.enable_by_count()', 'work(5)', 'profile.disable_by_count()'])[kind]
         lines += dict(ret=[], exit=['sys.exit(3)'], exc=["raise ValueError('boom')"])[outcome]
         return '\n'.join(lines) + '\n'
+    if kind == 'settrace_none':     # imports that -p can select, a profiled call, and at the end the program removes the trace
+        # function itself (as trace.Trace.runfunc, bdb / pdb on quit, coverage tools do)
+        lines.insert(1, 'import json')
+        lines.insert(2, 'from helper_mod import helper')
     if kind == 'suspended_gen':     # a profiled generator (and a coroutine-free twin) left suspended when the program ends:
         # it is finalised later, when the program's namespace goes away (the next run replaces builtins.profile)
         lines += ['@profile', 'def gen(n):', '    for i in range(n):', '        yield i',
@@ -105,6 +115,8 @@ def special_text(kind, outcome, explicit=0):
                   '@profile', 'def a_work():', '    t = threading.Thread(target=b_work)', '    t.start()', '    _in_b.wait(10)', '    return t',
                   '_t = a_work()', '_go.set()', '_t.join()']
     lines += ['@profile', 'def work(n):', '    return sum(range(n))', 'work(5)']
+    if kind == 'settrace_none':
+        lines += ['sys.settrace(None)']
     lines += dict(ret=[], exit=['sys.exit(3)'], exc=["raise ValueError('boom')"])[outcome]
     return '\n'.join(lines) + '\n'
 
@@ -151,7 +163,10 @@ def all_files():
 SELECTIONS = ['json', 'helper', 'both', 'script', 'nosuch']
 
 
-def make_run(l, b, m, setup, interval, where, extras, sargs, outcome, tp, ta, explicit, imp=0, sel=None, setup_uses=None, special=None):
+def make_run(l, b, m, setup, interval, where, extras, sargs, outcome, tp, ta, explicit, imp=0, sel=None, setup_uses=None, special=None,
+             fail=None):
+    """fail: 'dump' = -o names a file in a directory that does not exist; 'print' = kernprof runs with a closed sys.stdout;
+    'missing' = the script / module does not exist"""
     """sel: what -p selects (needs -l): an imported module, an imported function's module, both, the script itself
     (with --prof-imports: every import of the script is registered) or nothing that the program imports"""
     if sel == 'script':
@@ -162,7 +177,11 @@ def make_run(l, b, m, setup, interval, where, extras, sargs, outcome, tp, ta, ex
     if special:
         if outcome not in ('ret', 'exit', 'exc'):
             outcome = 'exc'
-        imp, sel = 0, None
+        if special == 'settrace_none':
+            imp = 1
+            sel = None if sel == 'script' else sel
+        else:
+            imp, sel = 0, None
         name = special_name(special, outcome, explicit)
         rp, ra = special in ('rebind_path', 'rebind_both'), special in ('rebind_argv', 'rebind_both')
         tp, ta = int(rp), int(ra)
@@ -177,6 +196,10 @@ def make_run(l, b, m, setup, interval, where, extras, sargs, outcome, tp, ta, ex
         args += ['-s', setup_file(setup_uses)]
     if interval is not None:
         args += ['-i', str(interval)]
+    if fail == 'dump':
+        extras = [x for i, x in enumerate(extras) if x != '-o' and (i == 0 or extras[i - 1] != '-o')] + ['-o', '{TMP}/no_such_dir/out.dat']
+    if fail == 'missing':
+        name, special, sel, imp = 'no_such_program', None, None, 0
     args += extras
     if m and sel == 'script':
         sel = 'both'
@@ -198,7 +221,7 @@ def make_run(l, b, m, setup, interval, where, extras, sargs, outcome, tp, ta, ex
     return dict(args=args, l=l, b=b, m=m, setup='setupd' if setup else None, interval=interval or 0,
                 new_argv=[script.replace('{TMP}', '/T')] + sargs, script_dir=sdir,
                 outcome=outcome, tp=bool(tp), ta=bool(ta), explicit=bool(explicit), imp=int(imp), sel=sel, regs=regs,
-                setup_uses=list(setup_uses or []), plain=not (l or b), special=special, rp=rp, ra=ra,
+                setup_uses=list(setup_uses or []), plain=not (l or b), special=special, rp=rp, ra=ra, fail=fail, stdout_closed=(fail == 'print'),
                 leave=LEAVES.get(special, 'LNone'))
 
 
@@ -252,6 +275,12 @@ def gen_cases(tier, rnd):
                     r = make_run(l, b, m, rnd.random() < 0.3, None, rnd.choice(['rel', 'sub']), [], ['a'], outcome, 0, 0,
                                  int((l or b) and rnd.random() < 0.3), special=special)
                     cases.append(dict(kind='special-program', init=init0, runs=[r]))
+    # 1d". -p registrations outstanding AND the program removes the trace function itself, then a second run
+    for sel in ('json', 'helper', 'both', None):
+        for outcome in ('ret', 'exit', 'exc'):
+            r1 = make_run(True, rnd.random() < 0.3, False, False, None, 'rel', [], [], outcome, 0, 0, 0, special='settrace_none', sel=sel)
+            r2 = make_run(rnd.random() < 0.6, False, False, False, None, 'sub', [], [], 'ret', 0, 0, 0)
+            cases.append(dict(kind='special-program', init=init0, runs=[r1, r2]))
     # 1d'. a suspended profiled generator is finalised AFTER its run: look at the run that follows
     for l, b in ((True, False), (True, True), (False, True)):
         for outcome in ('ret', 'exit', 'exc'):
@@ -259,6 +288,25 @@ def gen_cases(tier, rnd):
                 r1 = make_run(l, b, False, False, None, 'rel', [], [], outcome, 0, 0, 0, special='suspended_gen')
                 r2 = make_run(l2, b2, False, False, None, 'sub', [], [], 'ret', 0, 0, int(l2 or b2))
                 cases.append(dict(kind='special-program', init=init0, runs=[r1, r2]))
+    # 1f. the results cannot be written (-o into a directory that does not exist) / announced (closed stdout), or the script /
+    #     module does not exist: every mode x outcome x script / module, then ordinary use (always) and a second run
+    for fail in ('dump', 'print', 'missing'):
+        for l, b in ((True, False), (False, True), (False, False), (True, True)):
+            for outcome in (('ret', 'exit', 'exc') if fail != 'missing' else ('ret',)):
+                for m in (False, True):
+                    extras = ['-v'] if rnd.random() < 0.4 else []
+                    mk = lambda: make_run(l, b, m, rnd.random() < 0.2, None, 'rel', list(extras), ['a'], outcome, 0, 0, 0, fail=fail)  # noqa: E731
+                    cases.append(dict(kind='results-fail', init=rnd.choice([init0, dict(init0, profile='disabled')]), runs=[mk()]))
+                    r2 = make_run(rnd.random() < 0.5, rnd.random() < 0.5, False, False, None, 'sub', [], [], 'ret', 0, 0, 1)
+                    if not (r2['l'] or r2['b']):
+                        r2 = make_run(True, False, False, False, None, 'sub', [], [], 'ret', 0, 0, 1)
+                    cases.append(dict(kind='results-fail', init=init0, runs=[mk(), r2]))
+    for special in ('leave_enable', 'leave_bycount', 'leave_untraced', 'balanced_enable'):      # ... and programs that leave the profiler on
+        for l, b in ((True, False), (False, True), (True, True)):
+            for fail in ('dump', 'print'):
+                cases.append(dict(kind='results-fail', init=init0,
+                                  runs=[make_run(l, b, False, False, None, 'rel', [], [], rnd.choice(['ret', 'exit', 'exc']), 0, 0, 0,
+                                                 special=special, fail=fail)]))
     # 1e. programs that switch the builtin profile on themselves (enable / enable_by_count / with), left open or balanced,
     #     in every mode that has the builtin, every outcome, script / module - alone and followed by a second run
     for special in sorted(LEAVES):
@@ -447,6 +495,17 @@ def current_path_prediction(case, o):
 def classify(case, o, bit):
     """the finding id iff the failing clause matches that finding's signature exactly"""
     final, last = o['seen'][-1], case['runs'][-1]
+    taken_over = final['enabled'] is True and final['profile'] is not None and final['profile'][0] == 'ext'
+    if bit == 4 and last.get('fail') == 'missing' and taken_over and final['raised'] == 'SystemExit':
+        return FINDINGS[304]
+    if bit == 4 and last.get('fail') in ('dump', 'print') and taken_over and final['raised']:
+        return FINDINGS[204]
+    if bit == 8 and last.get('special') == 'leave_untraced' and last['l'] and not last.get('fail') == 'missing' \
+            and not o['before']['tracing'] and final['tracing'] and not final['threads']:
+        return FINDINGS[208]
+    if bit == 8 and last.get('special') in ('leave_enable', 'leave_bycount', 'leave_with', 'leave_untraced') and not last['l'] and last['b'] \
+            and last.get('fail') == 'dump' and not o['before']['tracing'] and final['tracing'] and not final['threads']:
+        return FINDINGS[308]
     if bit == 8 and last.get('special') == 'leave_enable' and last['l'] \
             and not o['before']['tracing'] and final['tracing'] and not final['threads']:
         return FINDINGS[108]
@@ -515,10 +574,11 @@ def q_gp(init):
 
 
 def q_run(r):
-    return '(mkOpts %s %s %s %s %s %s %s %s "/T") (mkProg %s %s %s %s %s %s %s %s [])' % (
+    return '(mkOpts %s %s %s %s %s %s %s %s %s %s %s "/T") (mkProg %s %s %s %s %s %s %s %s [])' % (
         core.coq_bool(r['l']), core.coq_bool(r['b']), core.coq_bool(r['m']),
         core.coq_opt(core.coq_str(r['setup']) if r['setup'] else None),
         core.coq_list([COQ_UOP[u] for u in r.get('setup_uses') or []]), core.coq_z(r['interval']),
+        core.coq_bool(r.get('fail') == 'dump'), core.coq_bool(r.get('fail') == 'print'), core.coq_bool(r.get('fail') == 'missing'),
         q_strs(r['new_argv']), core.coq_str(r['script_dir']),
         COQ_OUTCOME[r['outcome']], core.coq_bool(r['tp']), core.coq_bool(r['ta']), core.coq_bool(r.get('rp', False)), core.coq_bool(r.get('ra', False)),
         core.coq_bool(not r['explicit']), r.get('leave', 'LNone'), core.coq_z(r.get('regs', 0)))
@@ -563,7 +623,7 @@ Definition c19_case (s : St) (acts : list act) (before : seen) (os : list (seen 
 
 def run_driver(impl, cases, tmp, rt=()):
     payload = dict(tmp=str(tmp), files=all_files(), rt=list(rt),
-                   cases=[dict(init=c['init'], runs=[dict(args=[a.replace('{TMP}', str(tmp)) for a in r['args']], pre_use=r.get('pre_use', []), setup_uses=r.get('setup_uses', []),
+                   cases=[dict(init=c['init'], runs=[dict(args=[a.replace('{TMP}', str(tmp)) for a in r['args']], pre_use=r.get('pre_use', []), setup_uses=r.get('setup_uses', []), stdout_closed=r.get('stdout_closed', False),
                                                           plain=r.get('plain', False))
                                                      for r in c['runs']])
                           for c in cases])
@@ -596,7 +656,7 @@ def run(tier, seed):
     if gen.get('GlobalProfiler.v'):
         res.obl['failures'].append('translator refused the source: ' + gen['GlobalProfiler.v'])
     impl = core.build_impl()
-    tmp = core.SCRATCH_ROOT / 'tmp' / ('c19-%d' % seed)
+    tmp = core.SCRATCH_ROOT / 'tmp' / ('c19-%d-%d' % (seed, os.getpid()))      # concurrent checks must not share it
     shutil.rmtree(tmp, ignore_errors=True)
     tmp.mkdir(parents=True, exist_ok=True)
     tmp = tmp.resolve()
@@ -717,7 +777,7 @@ def run(tier, seed):
                  '(-l, -b, -m, -s, -i N) x 5 program outcomes (return, sys.exit, KeyboardInterrupt, raise at top level, raise inside a '
                  'profiled function) as single runs, all ordered pairs of 6 core behaviours, plus seeded random runs / sequences of 2-3 runs '
                  'with irrelevant options (-v -z -r -u -o), all kinds of -p selections with and without matching imports (and --prof-imports), program edits of sys.path / sys.argv, script given relative / in a '
-                 'subdirectory / absolute, programs that drive the builtin profile themselves (enable / enable_by_count / with, left open or balanced), programs that rebind sys.path / sys.argv, threaded programs whose profiled calls overlap across threads, decided and undecided initial decorator; plus the real kernprof.RepeatedTimer driven through '
+                 'subdirectory / absolute, results that cannot be written (-o into a missing directory) or announced (closed stdout), scripts / modules that do not exist, programs that drive the builtin profile themselves (enable / enable_by_count / with, left open or balanced), programs that rebind sys.path / sys.argv, threaded programs whose profiled calls overlap across threads, decided and undecided initial decorator; plus the real kernprof.RepeatedTimer driven through '
                  'deterministic schedules of expiry / dump completion / stop() (a blocking dump function places stop() inside a dump)',
             exhaustive=True, case_kinds=kinds, runs_per_case=lens, run_stats=stats, outcomes=outcomes,
             clause_failure_bits_histogram={str(k): v for k, v in sorted(bit_hist.items())},
@@ -747,7 +807,7 @@ def replay(path):
     data = json.load(open(path))
     impl = core.build_impl()
     c = data['case']
-    tmp = (core.SCRATCH_ROOT / 'tmp' / 'c19-replay')
+    tmp = (core.SCRATCH_ROOT / 'tmp' / ('c19-replay-%d' % os.getpid()))
     shutil.rmtree(tmp, ignore_errors=True)
     tmp.mkdir(parents=True, exist_ok=True)
     tmp = tmp.resolve()
